@@ -1063,7 +1063,12 @@ qs_spec("set_initial_decryptor", [("dcid", "Bytes"), ("chacha20", "Bool")], ["de
         stmt_updates={"self.keys.update(keys)": "keysInitial := true"},
         calls={"dev_initial_keys": dict(lean="dev_initial_keys", args=["Bytes", QSV, "Bool"], ret="Option (Table Str; Bytes)"),
                "QuicDecryptor": dict(lean="mk_decryptor", params=["keys", "cipher", "early"], args=["List Bytes", "TLX.Cipher.Alg", "Bool"],
-                                     ret=QDEC, raises=True)})
+                                     ret=QDEC, raises=True)})# run(): the write loop — one `writepkt` per collected frame, in the collected order
+SPECS.append(dict(name="Main.write_all", group="Main2", file=MAINF, func="run", theorem="Main2.write_all_eq_model",
+                  select={"start": "for buf, ts in all_decrypted_sessions:"}, tparams=["β", "θ"], st_tparams=["β", "θ"],
+                  params=[("all_decrypted_sessions", "List (β × θ)")],
+                  actions={"writer.writepkt(bytes(buf), ts)": "(buf, ts)"}, action_type="(β × θ)"))
+
 THEOREMS = _uniq(theorem_of(s) for s in SPECS)
 
 
